@@ -115,6 +115,7 @@ struct Families {
 	Tier t; std::vector<WordSpace> spaces;
 	struct Fam { std::string name; uint64_t count; };
 	std::vector<Fam> fams;
+	std::vector<int> rcpCounts;
 	std::vector<uint64_t> satWords; std::vector<std::array<int, 4>> branchProgs;   // {kind, nBig(FDIV_M, 56 bytes), nMid(FADD_R, 8 bytes), nSmall(c.add, 2 bytes)}; kind 0: CBRANCH at slot [1] after FDIV_M fillers std::vector<int> rcpCounts;
 
 	explicit Families(const Tier& tt) : t(tt) {
@@ -139,7 +140,7 @@ struct Families {
 			uint64_t progs = (n + 255) / 256 + (n + 383) / 384;   // v1 + v2
 			fams.push_back({ "a" + std::to_string(s), sc(progs * 2 /*packings*/ * 2 /*modes*/) });
 		}
-		fams.push_back({ "b2", sc(A * A * 3 * 4 * 4) });
+		fams.push_back({ "b2", sc(A * A * 3 * 4 * (t.thorough ? 16 : 8)) });
 		if (t.thorough) fams.push_back({ "b3", sc(A * A * A * 4) });
 		fams.push_back({ "c-sat", satWords.size() * 4 * 16 });
 		fams.push_back({ "c-branch", branchProgs.size() * 2 * 2 * 4 });
@@ -178,7 +179,8 @@ struct Families {
 			uint64_t A = t.alpha.size(); int L = fn == "b2" ? 2 : 3;
 			unsigned vm = (unsigned)(i % 4); i /= 4; c.v2 = vm & 1; c.light = vm >> 1;
 			unsigned ctx, pos;
-			if (L == 2) { unsigned c4 = (unsigned)(i % 4); i /= 4; pos = (unsigned)(i % 3); i /= 3; ctx = (c4 & 3) | (unsigned)(((i + c4) % 4) << 2); }
+			if (L == 2 && t.thorough) { ctx = (unsigned)(i % 16); i /= 16; pos = (unsigned)(i % 3); i /= 3; }
+			else if (L == 2) { unsigned c8 = (unsigned)(i % 8); i /= 8; pos = (unsigned)(i % 3); i /= 3; ctx = (c8 & 3) | ((((c8 >> 2) + 2 * (unsigned)(i % 2)) & 3) << 2); }   // quick: 8 of the 16 contexts, the rounding-mode pair alternating with the sequence
 			else { pos = (unsigned)((i + vm) % 3); ctx = (unsigned)((i * 7 + vm) % 16); }
 			ctx16(c, ctx, e); fill(c, e);
 			unsigned S = c.size(), at = pos == 0 ? 0 : (pos == 1 ? S / 2 : S - L);
@@ -267,7 +269,7 @@ struct Analyzer {
 		if (!known.empty()) {
 			Case d = c; bool any = false;
 			for (unsigned s = 0; s < d.size(); ++s) if (known.count(classOf(d.word(s)))) { d.setWord(s, NoOp()); any = true; }
-			if (any) { ++extraRuns; if (E.run(d).agree) { R.n["disagreements_attributed_to_reduced_class"]++; return; } }
+			if (any) { ++extraRuns; if (E.run(d).agree) { R.n["disagreements_attributed_to_reduced_class"]++; return; } c = d; /* something else is wrong too: reduce what is left */ }
 		}
 		// 2. greedy reduction: drop every word whose removal keeps the case disagreeing (any kind of disagreement)
 		std::vector<unsigned> live; for (unsigned s = 0; s < c.size(); ++s) if (c.word(s) != NoOp()) live.push_back(s);
@@ -288,8 +290,13 @@ struct Analyzer {
 		std::string key, what;
 		if (live.size() == 1) {
 			uint64_t w = c.word(live[0]); WordClass wc = classOf(w);
-			key = std::string("rv64:") + (fin.fault ? "fault:" : "mismatch:") + TypeName[wc.type] + (wc.srcEqDst ? ":src=dst" : "");
+			// does the same word disagree with other immediates too? (keeps a defect tied to one imm32 value apart from a broken instruction)
+			int alsoBad = 0;
+			for (uint32_t probe : { 0x12345678u, 0x00000001u, 0xFFFFF800u }) { Case d = c; d.setWord(live[0], (w & 0xFFFFFFFFull) | ((uint64_t)probe << 32)); ++extraRuns; if (probe != wc.imm && !E.run(d).agree) ++alsoBad; }
+			char ib[24]; snprintf(ib, sizeof ib, ":imm=%08x", wc.imm);
+			key = std::string("rv64:") + (fin.fault ? "fault:" : "mismatch:") + TypeName[wc.type] + (wc.srcEqDst ? ":src=dst" : "") + (alsoBad >= 2 ? ":imm=any" : ib);
 			known[wc] = key;
+			E.run(c); ++extraRuns;   // regenerate the code of the reduced case for the report below
 			what = "RV64 JIT != interpreter for the single instruction " + wordText(w) + " at slot " + std::to_string(live[0]) + " (all other slots no-ops), v" + (c.v2 ? "2" : "1") + (c.light ? " light" : " full") +
 				", entry rounding " + std::to_string(c.rmode) + ": " + fin.kind + ": " + fin.detail + "; emitted " + emittedHex(c, live[0]);
 		}
@@ -452,6 +459,7 @@ int main(int argc, char** argv) {
 			}
 		}
 		r.n["analysis_extra_runs"] += An.extraRuns;
+		r.n["ms_interpreter"] += (uint64_t)(E.tInterp * 1e3); r.n["ms_jit_codegen"] += (uint64_t)(E.tGen * 1e3); r.n["ms_emulation"] += (uint64_t)(E.tEmu * 1e3); r.n["ms_scratchpad_copy_compare"] += (uint64_t)(E.tMem * 1e3);
 		r.n["fp_results_canonicalised_nan"] += E.m.nanResults;
 		r.n["misaligned_guest_accesses"] += E.m.misaligned;
 		for (int f = 0; f < rv64emu::F_COUNT; ++f) if (E.m.formCount[f]) r.tags.insert(std::string("executed:") + rv64emu::formName[f]);
